@@ -201,6 +201,12 @@ class chunks(object):
         decChunkMin = int(np.floor((dec - self.decBounds[0]) *
                                    float(self.nDec) /
                                    (self.decBounds[self.nDec]-self.decBounds[0])))
+        #
+        # A point on the upper boundary (the north pole) belongs to the
+        # last slice.
+        #
+        if decChunkMin == self.nDec and dec <= self.decBounds[self.nDec]:
+            decChunkMin = self.nDec - 1
         decChunkMax = decChunkMin
         if decChunkMin < 0 or decChunkMin > self.nDec - 1:
             raise PydlutilsException("decChunkMin out of range in chunks.getbounds().")
@@ -258,6 +264,8 @@ class chunks(object):
         decChunk = int(np.floor((dec - self.decBounds[0]) *
                                 float(self.nDec) /
                                 (self.decBounds[self.nDec]-self.decBounds[0])))
+        if decChunk == self.nDec and dec <= self.decBounds[self.nDec]:
+            decChunk = self.nDec - 1
         #
         # Find ra chunk
         #
